@@ -49,20 +49,213 @@ COMMON_ASSUMPTIONS = [
 ]
 
 
+CONC_RULE = ("C-mode: N client threads (2-16) on 1-8 keys against one real cache; every call recorded at the client boundary with call/return "
+             "stamps from one global counter, acknowledgements awaited with a real waker (never re-polled without a wake), seeded yields / "
+             "spins / sleeps injected at the verif schedule points, directed gates for named races. distinct = hash of the observed "
+             "(thread, schedule point) sequence (an interleaving signature) or of the scenario parameters; non-trivial = the case reached "
+             "the contended situation the property is about (see observed.*).")
+
+
 def plan(prop, tier, seed):
     quick = tier != "thorough"
-    n = 140 if quick else 2500
-    b = 40 if quick else 420
     if prop in SEQ_ONLY:
         info = SEQ_ONLY[prop]
-        return {
-            "shards": seq_shards(prop, seed, n, b),
-            "rule": SEQ_RULE,
-            "explanation": info["explanation"],
-            "assumptions": COMMON_ASSUMPTIONS + info.get("assumptions", []),
-            "require": info["require"],
-        }
+        n, b = (140, 40) if quick else (2500, 420)
+        shards = seq_shards(prop, seed, n, b)
+        extra = info.get("extra_shards")
+        if extra:
+            shards = shards[:12] + extra(seed, quick)
+        return {"shards": shards, "rule": SEQ_RULE + (" " + CONC_RULE if extra else ""), "explanation": info["explanation"],
+                "assumptions": COMMON_ASSUMPTIONS + info.get("assumptions", []), "require": info["require"]}
+    if prop in OTHER:
+        return OTHER[prop](seed, quick)
     return None
+
+
+def _c01(seed, quick):
+    n, b = (140, 40) if quick else (2000, 400)
+    m, mb = (25, 40) if quick else (500, 400)
+    return {
+        "shards": seq_shards("C01", seed, n, b, shards=8) + conc_shards("C01", seed, "mixed", m, mb, shards=8),
+        "rule": SEQ_RULE + " " + CONC_RULE,
+        "explanation": "Online invariant: every change of the total weight emits WeightChanged{site,new_total,max} under the total's own write lock "
+                       "(add / update / delete); the recorder asserts 0 <= new_total <= max at that instant. Two observer threads spin on the public "
+                       "total_weight_used() during every concurrent case. Workloads: S-mode pressure histories with boundary weights (free-1, free, free+1, "
+                       "max-1, max, max+1) and C-mode mixed runs under pressure with expiry/sweeps racing the worker; half of the concurrent cases give every "
+                       "write of a key the same explicit weight, so the bound is also checked where the recorded UpdateWeight defect cannot play.",
+        "assumptions": COMMON_ASSUMPTIONS + ["observation stops before shutdown(): clear() may race a worker delete"],
+        "require": ["weight_change_events", "observer_samples", "evictions"],
+    }
+
+
+def _c02(seed, quick):
+    m, mb = (30, 40) if quick else (600, 420)
+    n, b = (120, 40) if quick else (2000, 400)
+    plan = {
+        "shards": conc_shards("C02", seed, "mixed", m, mb, shards=12) + seq_shards("C02", seed, n, b, shards=4),
+        "rule": CONC_RULE + " " + SEQ_RULE,
+        "explanation": "Every value is a unique token (key<<40 | writer<<32 | counter). Offline per-key checker over the recorded concurrent history: a returned "
+                       "token must have been written to that key by a call that began before the read ended, must not belong to a rejected put, and must not "
+                       "have been superseded (another accepted write or a delete of the key began after the source write was acknowledged and was complete "
+                       "before the read began). All seven read variants are used; pressure, TTL expiry, constant hash and schedule perturbation are drawn per "
+                       "case. S-mode adds back-to-back agreement of all variants with the model after every step.",
+        "assumptions": COMMON_ASSUMPTIONS + ["a write completes when the client observes its acknowledgement; a delete completes at call return only with respect to writes acknowledged before it began"],
+        "require": ["reads_overlapping_a_write_of_the_same_key", "reads_returned_value"],
+    }
+    if not quick:
+        import sanit
+        plan["extras"] = [sanit.tsan_extra, sanit.asan_extra, sanit.miri_cache_extra]
+    return plan
+
+
+def _c05(seed, quick):
+    m, mb = (25, 40) if quick else (500, 400)
+    n, b = (100, 40) if quick else (2000, 400)
+    return {
+        "shards": conc_shards("C05", seed, "same-key", 24 if quick else 400, mb, shards=4) + conc_shards("C05", seed, "mixed", m, mb, shards=8) + seq_shards("C05", seed, n, b, shards=4),
+        "rule": CONC_RULE + " " + SEQ_RULE,
+        "explanation": "At quiescent points (every command acknowledged, two sweeps completed since the clock stopped) the snapshot must satisfy: total = sum of "
+                       "charged weights, charged ids = ids of held entries, and after deleting every key total_weight_used() = 0. Directed races: two puts of one "
+                       "key that both pass the existence check before either is applied (two threads with a gate after the check; one thread with the worker "
+                       "held), put racing upsert, delete racing put; plus free-running mixed histories with un-awaited writes, eviction and sweeps.",
+        "assumptions": COMMON_ASSUMPTIONS,
+        "require": ["quiescent_points_checked", "races_where_both_writes_passed_the_existence_check_before_the_first_was_applied", "delete_everything_checks"],
+    }
+
+
+def _c06(seed, quick):
+    n, b = (4000, 40) if quick else (150000, 400)
+    return {
+        "shards": comp_shards("C06", seed, "c06", n, b, shards=12) + seq_shards("C06", seed, 100 if quick else 2000, b, shards=4),
+        "rule": "Component level: a real AdmissionPolicy is filled with 0-9 keys (weights 1..max/3), access frequencies are set directly (0..20 accesses: ties, "
+                "saturated estimates 15/16), then one decision is made for an incoming key with weight in {free-1, free, free+1, max, max+1, 1, huge, random} and "
+                "0..20 prior accesses. distinct = (decision class, #keys, incoming estimate, #victims); non-trivial = not the plain fast path on an empty cache. " + SEQ_RULE,
+        "explanation": "The decision is recomputed independently of the event's own numbers: before the put the harness reads the charged keys, their weights and "
+                       "their estimates through the accessor; afterwards it checks the recorded sample of every step (size min(5,#keys), distinct, all charged, "
+                       "refilled without previous victims), that each victim is the minimum-estimate key of its sample, that it was evicted iff its estimate does "
+                       "not exceed the incoming key's, that eviction stopped as soon as space sufficed, that the delete hook saw exactly the victims, the final "
+                       "status against the resulting space and the total against the arithmetic. Fits => accepted with zero victims; over-weight => rejected "
+                       "for that reason, nothing changed. End-to-end S-mode pressure histories add the status clauses through CacheD.",
+        "assumptions": ["the tie rule (heavier first) is recorded as coverage, not enforced: the statement only orders by estimate", "no access is being applied while a decision runs (the access queue is drained first)"],
+        "require": ["decisions:multi-victim-accept", "decisions:partial-evict-reject", "decisions:over-weight", "decisions:fits", "decisions_with_a_tie_for_the_coldest_key"],
+    }
+
+
+def _c11(seed, quick):
+    m, mb = (12, 40) if quick else (300, 420)
+    return {
+        "shards": conc_shards("C11", seed, "burst", m, mb),
+        "rule": "Bursts of 10-300 un-awaited writes from 1-16 threads, command_buffer_size in {1,2,3,8,32768}, worker slowed at its dequeue / before its acknowledgement "
+                "so that the queue really fills. distinct = hash of the execution order (thread, per-thread sequence number); non-trivial = at least 10 queued "
+                "commands and, with more than one thread, cross-thread ordered pairs were available.",
+        "explanation": "Offline order checker over the hook events Sent/ExecBegin/ExecEnd (stamped from one counter) cross-checked at the client boundary: every "
+                       "queued uid executed exactly once, executions never overlap, execution order respects per-thread submission order and cross-thread "
+                       "real-time order (A returned before B was invoked), each acknowledgement (polled once with its own recording waker right after the call) "
+                       "completes in submission order per thread and carries the ExecEnd status, put+delete of a private key without awaiting leaves it absent, "
+                       "and the final contents / KeysAdded / KeysDeleted equal a sequential replay of the executed commands.",
+        "assumptions": ["no memory pressure in this scenario (cache weight 10^8) so that the sequential replay is exact"],
+        "require": ["commands_executed", "same_thread_ordered_pairs_checked", "cross_thread_ordered_pairs_checked", "wake_order_pairs_checked", "sends_that_found_the_queue_full", "final_content_checks"],
+    }
+
+
+def _c12(seed, quick):
+    m, mb = (25, 40) if quick else (500, 400)
+    plan = {
+        "shards": comp_shards("C12", seed, "c12-directed", 1, 120, shards=1) + comp_shards("C12", seed, "c12-stress", 1500 if quick else 60000, mb, shards=7) + conc_shards("C12", seed, "mixed", m, mb, shards=8),
+        "rule": "Directed: all placements of 1-3 sequential polls (same or fresh waker) into the four gaps of done() {before, between its two stores, before the wake, "
+                "after return} x 3 final statuses, the completer held by gates at the lock-free schedule points: 312 cases, exhaustive at that granularity. Stress: "
+                "an executor-like poller (waits for its own waker, spurious re-polls, waker changes; sometimes two tasks on one handle) vs done() with seeded delays "
+                "at the sites between done()'s steps and inside poll(). End-to-end: every acknowledgement of the C-mode mixed runs is awaited with a real waker. " + CONC_RULE,
+        "explanation": "Refuted by Ready(Pending), two different Ready values, a Ready different from the status given to done(), Pending after done() returned, "
+                       "Pending after Ready, a task whose last poll was Pending not being woken although done() returned (decided logically: the wake happens inside "
+                       "done(), so once done() has returned the wake count must be non-zero), or an acknowledgement unresolved at quiescence.",
+        "assumptions": ["'eventually completes' is restated as: resolved by the time every sent command has been acknowledged by the worker"],
+        "require": ["polls_inside_gap_1", "polls_inside_gap_2", "wake_obligations_checked", "stress_polls", "acks:Accepted"],
+    }
+    if not quick:
+        import sanit
+        plan["extras"] = [sanit.miri_ack_extra]
+    return plan
+
+
+def _c13(seed, quick):
+    m, mb = (20, 40) if quick else (500, 420)
+    return {
+        "shards": conc_shards("C13", seed, "shutdown", m, mb),
+        "rule": "2-16 writer threads in tight loops, 1-3 threads calling shutdown() at random points (also concurrently), command_buffer_size in {1,2,8}, seeded "
+                "perturbation at the shutdown / send / worker schedule points; every third case holds one write between the flag check and the send until Shutdown "
+                "is queued. distinct = (commands that ran, commands behind Shutdown, thread counts); non-trivial = some commands ran before the Shutdown command.",
+        "explanation": "After shutdown() returned on a thread every API is called on that thread (all writes must return Err, all reads absent/empty); other threads "
+                       "order themselves behind the return through the global stamp. Every acknowledgement handed out before/during shutdown is awaited with a "
+                       "real waker and must carry the ExecEnd status if the command ran or ShuttingDown if it was drained behind Shutdown; exactly one Shutdown "
+                       "command may be executed; shutdown() not returning is decided by the logical-hang test (every thread in futex wait, no progress).",
+        "assumptions": ["'no caller waits forever' is restated as: every acknowledgement resolves once the worker has drained the queue"],
+        "require": ["acknowledgements_of_commands_that_ran", "acknowledgements_of_commands_behind_shutdown", "post_shutdown_api_calls_checked", "writes_held_past_the_flag_check"],
+    }
+
+
+def _c14(seed, quick):
+    return {
+        "shards": comp_shards("C14", seed, "c14", 6 if quick else 400, 400),
+        "rule": "Packed rows: all 256 byte values x 2 nibble positions (exhaustive for that part). Sketch / TinyLFU: every counter count 1..=130 plus random larger ones "
+                "(non-powers of two included), random access streams over a 6-12 hash alphabet with collisions, against an unpacked reference sketch fed the same "
+                "row seeds. distinct = (part, byte/position | counter count, stream seed); every case is non-trivial (each exercises increments and ageing).",
+        "explanation": "increment_at changes only its own nibble and saturates at 15; get_at reads the right nibble; half_counters = floor(n/2) per nibble; "
+                       "FrequencyCounter::estimate = reference minimum and the whole matrix equals the reference after the stream; TinyLFU: estimate >= min(recorded "
+                       "accesses in the window, 15) and <= 16, the reset happens at exactly `counters` recorded accesses (also inside a batch), halves every "
+                       "counter (matrix compared before/after) and clears the first-access filter.",
+        "assumptions": ["bloom-filter false positives only raise estimates: only the lower bound and the cap are asserted on estimates"],
+        "require": ["byte_cases", "counter_counts_covered", "tinylfu_resets", "saturated_estimates_seen", "filter_checked_right_after_ageing"],
+    }
+
+
+def _c15(seed, quick):
+    m, mb = (20, 40) if quick else (400, 420)
+    return {
+        "shards": conc_shards("C15", seed, "stall", m, mb, shards=12) + seq_shards("C15", seed, 100 if quick else 2000, mb, shards=4),
+        "rule": "1-16 reader threads over live and missing keys, pool in {1,2,32} x buffer in {1,2,64}; variant 0 stalls the consumer with a gate before it takes the "
+                "sketch lock, variant 1 slows it with delays, variant 2 lets it run; each reader performs pool*buffer*12+50 reads. distinct = (pool, buffer, readers, "
+                "variant, dropped?, hash mode); non-trivial = hits were recorded and the quiescent identities were evaluated. " + SEQ_RULE,
+        "explanation": "While running, a sampler reads added, dropped -> buffered (under each buffer's lock) -> hits in that order and asserts added+dropped+buffered <= hits "
+                       "(the order makes the inequality immune to skew). With the consumer stalled the readers must still finish (completion vs. the logical-hang test), "
+                       "and once more hits were recorded than the pipeline can hold AccessDropped must be > 0. At quiescence hits = added + dropped + buffered and the "
+                       "number of records applied to the sketch (BatchApplied events) = AccessAdded.",
+        "assumptions": COMMON_ASSUMPTIONS,
+        "require": ["runs_with_the_consumer_held_at_the_gate", "runs_where_buffers_were_dropped", "quiescent_identity_checks", "identity_samples_while_running"],
+    }
+
+
+def _c18(seed, quick):
+    plan = {
+        "shards": conc_shards("C18", seed, "stress", 3 if quick else 60, 60 if quick else 500, extra=["--ops", "2500" if quick else "20000"]),
+        "rule": "8-16 threads x thousands of operations of every type (7 read variants, multi-key reads, 4 put variants, TTL upserts, weight upserts, deletes, a "
+                "shutdown mid-run in a third of the cases) on 1-4 keys with 2 shards, queue 1, pool 1 x buffer 1, evictions on nearly every put, sweeps every 1 ms with "
+                "the clock advancing, seeded delays at the lock-holding sites. distinct = interleaving signature (hash of the (thread, schedule point) sequence).",
+        "explanation": "A hang is decided logically, not by a timer: a watchdog declares it only when some client has not finished, the hook-event progress counter is "
+                       "unchanged and every thread of the process other than sweeper timer threads is blocked in futex (read from /proc/self/task/*/syscall). Every "
+                       "acknowledgement is awaited with a real waker, so a lost wake-up or a dead worker also surfaces. No client holds a get_ref guard across a call.",
+        "assumptions": ["runnable threads are never in futex, so machine load cannot produce the hang condition; the wall-clock watchdog alone yields inconclusive"],
+        "require": ["operations_completed", "distinct_cross_thread_site_adjacencies", "schedule_perturbations_injected"],
+    }
+    if not quick:
+        import sanit
+        plan["extras"] = [sanit.tsan_extra, sanit.miri_cache_extra]
+    return plan
+
+
+OTHER = {"C01": _c01, "C02": _c02, "C05": _c05, "C06": _c06, "C11": _c11, "C12": _c12, "C13": _c13, "C14": _c14, "C15": _c15, "C18": _c18}
+
+
+def _c04_extra(seed, quick):
+    return conc_shards("C04", seed, "mixed", 25 if quick else 500, 40 if quick else 400, shards=4)
+
+
+def _c07_extra(seed, quick):
+    return conc_shards("C07", seed, "same-key", 24 if quick else 400, 40 if quick else 400, shards=4)
+
+
+def _c17_extra(seed, quick):
+    return conc_shards("C17", seed, "mixed", 20 if quick else 400, 40 if quick else 400, shards=4)
 
 
 SEQ_ONLY = {
@@ -72,10 +265,27 @@ SEQ_ONLY = {
                        "every step and must return its latest acknowledged value while the model says it is live.",
         "require": ["reads_returned_value", "keys_swept", "noise_ops"],
     },
+    "C04": {
+        "explanation": "S-mode: deletes of keys in every state (never put, live, live+ttl, expired, already deleted, swept), delete/put/delete sequences, exact model "
+                       "of status, snapshot and total afterwards (weight released, re-put possible, delete of an absent key = KeyDoesNotExist and changes nothing). "
+                       "Directed window: the worker is held before it executes the Delete, delete() has returned, all seven read variants are issued from the "
+                       "deleting thread and from another thread and must report absent. C-mode mixed histories add the per-key rule 'a value acknowledged before "
+                       "a delete began is never read after that delete returned' under free interleaving.",
+        "require": ["reads_inside_delete_window", "critical:delete-of-absent-key", "critical:delete-of-live-key", "reads_overlapping_a_write_of_the_same_key"],
+        "extra_shards": _c04_extra,
+    },
+    "C10": {
+        "explanation": "Bounded-progress restatement: after the clock has dwelt, with at least one completed sweep each, on `shards` consecutive seconds all later than a "
+                       "key's expiry, the key is gone from store, weight map and index and its weight is released. Safety half after every step: every id the sweeper "
+                       "evicts (SweepCompleted event) must belong to a key whose current expiry is earlier than the sweep's clock reading; a live key must never be "
+                       "missing; index entries must match the stored expiry and shard; old index entries of earlier incarnations coming due are counted.",
+        "require": ["keys_swept", "critical:full-cycle", "sweep_evicted_ids", "deadlines_crossed"],
+    },
     "C07": {
+        "extra_shards": _c07_extra,
         "explanation": "All four put variants against keys in every life-cycle state (never written, live, live with TTL, deleted and acknowledged, "
                        "swept, past TTL but unswept): a readable key must answer KeyAlreadyExists and stay untouched, an absent-reading key must never.",
-        "require": ["critical:put-on-readable-key", "puts_accepted"],
+        "require": ["critical:put-on-readable-key", "puts_accepted", "races_where_both_writes_passed_the_existence_check_before_the_first_was_applied"],
     },
     "C08": {
         "explanation": "All builder-accepted upsert shapes against keys in the states absent, live, live+ttl, expired-unswept, soft-deleted "
@@ -100,5 +310,6 @@ SEQ_ONLY = {
                        "counters 1..2^20; queue/pool/buffer 1): every API call runs under catch_unwind, background threads report their exit through a drop "
                        "guard, a panic hook records file and message, and a liveness probe (put + await + get) ends every history.",
         "require": ["liveness_probes"],
+        "extra_shards": _c17_extra,
     },
 }
